@@ -2,6 +2,7 @@ import Rare.Proofs.C19Rat
 import Rare.Proofs.C19Complete
 import Rare.Proofs.C19Fuel
 import Rare.Proofs.C19Lit
+import Rare.Proofs.C19Tok
 import Rare.Gen.C19
 /-!
 # C19 — math formulas follow the documented precedence; constants equal bound variables
@@ -289,6 +290,20 @@ theorem literal_value_dec (ds : Bytes) (hne : ds ≠ []) (h0 : ds.head? ≠ some
     (hd : ∀ d ∈ ds, isBaseDigit 10 d = true) (hr : (baseVal 10 ds : Int) ≤ maxInt64) (b : Binding α) :
     ∃ e, compile A ds = .ok (.lit ds, e) ∧ e.eval A b = A.ofInt (baseVal 10 ds) :=
   ⟨_, compile_dec_lit A ds hne h0 hd (by unfold maxInt64 at hr; omega), rfl⟩
+
+/-- **Longest-operator match**: where the tokenizer looks for a binary operator (`prefixInOps`), it
+    takes the LONGEST key of `ops` (table in `/repo`) the remaining text starts with – `<<` before `<`,
+    `<=` before `<`, `&&` before `&` – and finds none only if no key is a prefix. -/
+theorem operator_longest_match (s : Bytes) :
+    (∀ k, prefixInOps s = some k →
+      k ∈ Gen.C19.opKeys ∧ k <+: s ∧ ∀ k' ∈ Gen.C19.opKeys, k' <+: s → k'.length ≤ k.length) ∧
+    (prefixInOps s = none → ∀ k' ∈ Gen.C19.opKeys, ¬ k' <+: s) := by
+  rw [gen_tables.2.1]
+  exact prefixInOps_longest s
+
+example : prefixInOps (ascii "<<=1") = some (ascii "<<") ∧ prefixInOps (ascii "<=1") = some (ascii "<=") ∧
+    prefixInOps (ascii "<1") = some (ascii "<") ∧ prefixInOps (ascii "&&x") = some (ascii "&&") ∧
+    prefixInOps (ascii "=1") = none := by decide +kernel
 
 /-! ### Implied multiplication -/
 
